@@ -275,6 +275,7 @@ func (kr *Root) FlushMemFree(ctx context.Context) error {
 // the top), document it and maybe make it an anonymous variable (if
 // that's possible).
 func (kr *Root) updateChildEntry(c child) error {
+	verifRootUpdate(c.Node)
 	err := kr.GetDirectory().dagService.Add(context.TODO(), c.Node)
 	if err != nil {
 		return err
